@@ -21,7 +21,12 @@ STR = Function("STR", U, Str)              # str(value) / "%s" % value / six.tex
 REPR = Function("REPR", U, Str)            # repr(value)
 ISNONE = Function("ISNONE", U, B)          # value is None
 NONE_U = Const("NONE_U", U)
+SPLIT = Function("SPLIT", Str, Str, SeqStr)   # s.split(sep)
+UPPER = Function("UPPER", Str, Str)            # s.upper()
+SEP = Function("SEP", R, Str)                  # node.separator (class attribute of the node class, non-empty)
+ROOT = Function("ROOT", R, R)                  # node.root (navigation contract, C04)
 UFn = DeclareSort("UFn")                   # user callback node -> value
+CmpFn = DeclareSort("CmpFn")               # string comparison callback (Resolver.__cmp / Resolver.__match)
 UFn2 = DeclareSort("UFn2")                 # user callback (node, child) -> value
 appU = Function("appU", UFn, R, U)
 appU2 = Function("appU2", UFn2, R, R, U)
@@ -114,6 +119,22 @@ class TextExec(SeqExec):
         else:
             yield from Exec.e_Constant(self, e, p)
 
+    def s_Expr(self, st, p):
+        # parts.pop(0) on a local list of strings: functional update of the local
+        v = st.value
+        if (isinstance(v, ast.Call) and isinstance(v.func, ast.Attribute) and v.func.attr == "pop" and isinstance(v.func.value, ast.Name)
+                and v.func.value.id in p.env and p.env[v.func.value.id].k == "qseq" and len(v.args) == 1
+                and isinstance(v.args[0], ast.Constant) and v.args[0].value == 0):
+            lst = p.env[v.func.value.id]
+            if (lst.x or {}).get("shared"):
+                raise Unsupported("in-place mutation of a list that has another name")
+            self.oblig(p, "SAFE", "pop-from-nonempty", Length(lst.t) >= 1, note="pop from an empty list raises IndexError")
+            p.assume(Length(lst.t) >= 1)
+            from z3 import Extract
+            p.env[v.func.value.id] = V("qseq", Extract(lst.t, 1, Length(lst.t) - 1), dict(lst.x or {}))
+            return [p]
+        return SeqExec.s_Expr(self, st, p)
+
     def e_Lambda(self, e, p):
         # one-argument predicate lambdas (default filter/stop) become callback symbols at once
         if len(e.args.args) == 1 and isinstance(e.body, ast.Constant) and isinstance(e.body.value, bool):
@@ -176,6 +197,18 @@ class TextExec(SeqExec):
 
     # ------------------------------------------------------------------ attributes of the object under verification
     def attr_load(self, obj, attr, p, e):
+        if obj.k == "ref" and attr == "separator":
+            p.assume(Length(SEP(obj.t)) > 0)
+            yield p, vstr(SEP(obj.t))
+            return
+        if obj.k == "ref" and attr == "root":
+            from .seqworld import PAR
+            p.assume(PAR(ROOT(obj.t)) == NONE, ROOT(obj.t) != NONE)
+            yield p, vref(ROOT(obj.t))
+            return
+        if obj.k in ("str", "pystr") and attr in ("split", "startswith", "upper"):
+            yield p, V("strmethod", (obj, attr))
+            return
         if obj.k == "ref" and attr not in ("children", "parent", "is_leaf"):
             h = self.reg.ref_attr.get(attr)
             if h is not None:
@@ -257,6 +290,11 @@ class TextExec(SeqExec):
             sq = IterSeq(Length(s), lambda i: V("any", s[i]), desc="useq")
             sq.term, sq.elem = s, "any"
             return sq
+        if v.k == "qseq" and (v.x or {}).get("elem") == "str":
+            s = v.t
+            sq = IterSeq(Length(s), lambda i: vstr(s[i]), desc="strings")
+            sq.term, sq.elem = s, "str"
+            return sq
         if v.k == "gen" and (v.x or {}).get("elem") == "str":
             s = self.seqterm(v, p)
             sq = IterSeq(Length(s), lambda i: vstr(s[i]), desc="lines")
@@ -265,6 +303,27 @@ class TextExec(SeqExec):
         return SeqExec.as_iterseq(self, v, p)
 
     def call_value(self, fv, pos, kw, p, e):
+        if fv.k == "strmethod":
+            s, m = fv.t
+            st = tostr(s)
+            if m == "upper" and not pos:
+                yield p, vstr(UPPER(st))
+            elif m == "startswith" and len(pos) == 1:
+                yield p, vbool(PrefixOf(tostr(pos[0]), st))
+            elif m == "split" and len(pos) == 1:
+                sep = tostr(pos[0])
+                sp = SPLIT(st, sep)
+                # str.split(sep) for a non-empty separator: at least one piece; a leading separator gives an empty first piece
+                p.assume(Length(sp) >= 1, Implies(And(PrefixOf(sep, st), Length(sep) > 0), And(Length(sp) >= 2, sp[0] == StringVal(""))))
+                yield p, V("qseq", sp, {"elem": "str"})
+            else:
+                raise Unsupported("str.%s" % m)
+            return
+        if fv.k == "cmpfn":
+            if len(pos) != 2:
+                raise Unsupported("comparison callback arity")
+            yield p, vbool(self.reg.cmpapp(fv.t, tostr(pos[0]), tostr(pos[1])))
+            return
         if fv.k in ("ufn", "optufn"):
             fn = fv.t if fv.k == "ufn" else fv.t[1]
             if fv.k == "optufn":
@@ -317,11 +376,28 @@ class TextExec(SeqExec):
             if v.k in ("str", "pystr"):
                 return vstr(tostr(v))
             raise Unsupported("string from %r" % (v,))
+        if kind == "cmpfn":
+            if v.k == "cmpfn":
+                return v
+            if v.k == "bound":
+                c_ = self.reg.cmpconsts.get((v.t[1], v.t[2]))
+                if c_ is not None:
+                    return V("cmpfn", c_)
+            raise Unsupported("comparison callback from %r" % (v,))
+        if kind == "strlist":
+            if v.k == "qseq" and (v.x or {}).get("elem") == "str":
+                return v
+            raise Unsupported("list of strings from %r" % (v,))
         if kind == "any":
             return V("any", toany(v)) if v.k != "any" else v
         return SeqExec.coerce(self, v, kind, p)
 
     def builtin2(self, name, pos, kw, p, e):
+        if name == "getattr" and len(pos) == 3 and pos[0].k == "ref":
+            nm = toany(pos[1])
+            d = toany(pos[2])
+            yield p, V("any", If(HAS(pos[0].t, nm), ATTR(pos[0].t, nm), d))
+            return
         if name == "str":
             yield p, vstr(tostr(pos[0]))
         elif name == "repr":
@@ -377,7 +453,12 @@ class TextExec(SeqExec):
             t = Concat(t, x)
         return t
 
+    def subscript_load2(self, obj, key, p, e):
+        return None
+
     def fresh_of_kind(self, kind, name):
+        if kind == "strlist":
+            return V("qseq", Const(fresh(name), SeqStr), {"elem": "str"})
         if kind == "str":
             return vstr(String(fresh(name)))
         if kind == "any":
@@ -418,6 +499,10 @@ class TextWorld(SeqWorld):
             return V("optseq", (Const("arg_%s_given" % n, B), Const("arg_" + n, SeqU)))
         if k == "any":
             return V("any", Const("arg_" + n, U))
+        if k == "strlist":
+            return V("qseq", Const("arg_" + n, SeqStr), {"elem": "str"})
+        if k == "cmpfn":
+            return V("cmpfn", Const("arg_" + n, CmpFn))
         return SeqWorld.make_arg(self, n, k)
 
     def arg_facts(self, args, spec):
@@ -445,6 +530,10 @@ class TextWorld(SeqWorld):
             return value.k in ("qseq", "gen")
         if want == "str":
             return value.k in ("str", "pystr")
+        if want == "tuple":
+            return value.k == "tuple"
+        if want == "ref":
+            return value.k == "ref"
         if want == "any":
             return True
         return SeqWorld.kind_ok(self, want, value)
